@@ -693,8 +693,11 @@ func (ls *LanceroSource) launchLanceroReader() {
 					}
 					dev.card.ReleaseBytes(dropFromStart) // we could instead remember dropFromStart and add it
 					// to the later call to ReleaseBytes
-					dropFromEnd := dev.frameSize - dropFromStart
-					if dropFromEnd <= 0 {
+					// Trim the end so that a whole number of frames is removed in total. The first frame
+					// boundary can be more than one frame into the buffer (a fragment consisting only of
+					// frame-bit words merges with the next frame's), hence the modulo.
+					dropFromEnd := (dev.frameSize - dropFromStart%dev.frameSize) % dev.frameSize
+					if dropFromEnd < 0 {
 						fmt.Printf("firstWord %v, dropFromStart %v, dropFromEnd %v\n", firstWord, dropFromEnd, dropFromStart)
 						panic("expect dropFromEnd>0")
 					}
